@@ -303,7 +303,7 @@ def run_enum_xla(p):
 
 
 # ------------------------------------------------------------------------------------------ InRamPolicySupporter.GetBestTrials
-def best_trials_once(goals, trials):
+def best_trials_once(goals, trials, count=None):
     """goals: list of 'MAXIMIZE'|'MINIMIZE'; trials: list of None (infeasible) | list of values.  Returns (got ids, spec ids)."""
     from vizier import pyvizier as vz
     from vizier._src.pythia import local_policy_supporters as lps
@@ -322,7 +322,7 @@ def best_trials_once(goals, trials):
             t.complete(vz.Measurement(metrics={'m%d' % i: float(x) for i, x in enumerate(v) if x is not None}))
         ts.append(t)
     sup.AddTrials(ts)
-    got = call(lambda: [t.id for t in sup.GetBestTrials()])
+    got = call(lambda: [t.id for t in (sup.GetBestTrials() if count is None else sup.GetBestTrials(count=count))])
     ids = [t.id for t in sup.trials]
     vecs = {ids[i]: [(-1.0 if g == 'MINIMIZE' else 1.0) * float(x) for g, x in zip(goals, v)] for i, v in enumerate(trials)
             if v is not None and all(x is not None for x in v)}
@@ -332,8 +332,18 @@ def best_trials_once(goals, trials):
 
 def run_best_trials(p):
     if 'trials' in p:
-        got, spec, ids, vecs = best_trials_once(p['goals'], p['trials'])
-        return {'got': got, 'expected': spec, 'reproduced': got.get('value') != spec}
+        cnt = p.get('count')
+        got, spec, ids, vecs = best_trials_once(p['goals'], p['trials'], cnt)
+        if cnt is None:
+            return {'got': got, 'expected': spec, 'reproduced': got.get('value') != spec}
+        gv = got.get('value')
+        if len(p['goals']) > 1:
+            # count set, multi-objective: the first min(count, |Pareto set|) trials of the count-unset answer
+            return {'got': got, 'expected': spec[:cnt], 'count': cnt, 'reproduced': gv != spec[:cnt]}
+        # count set, single objective: min(count, #labelled) distinct labelled trials, none left out is strictly better
+        bad = (gv is None or len(gv) != min(cnt, len(vecs)) or len(set(gv)) != len(gv) or any(i not in vecs for i in gv)
+               or any(vecs[k][0] > vecs[i][0] for i in gv for k in vecs if k not in gv))
+        return {'got': got, 'count': cnt, 'labels': {str(k): v for k, v in vecs.items()}, 'reproduced': bool(bad)}
     n_max, values = p.get('n_max', 3), p.get('values', [0, 1])
     configs = [['MAXIMIZE'], ['MINIMIZE'], ['MAXIMIZE', 'MINIMIZE']]
     checked, tie, infeasible_only, multi_empty, other = 0, [], [], [], []
